@@ -7,6 +7,7 @@ import (
 	ipfslog "berty.tech/go-ipfs-log"
 	"berty.tech/go-orbit-db/iface"
 	"berty.tech/go-orbit-db/stores/operation"
+	"berty.tech/go-orbit-db/verifhook"
 )
 
 type documentIndex struct {
@@ -52,6 +53,8 @@ func (i *documentIndex) UpdateIndex(oplog ipfslog.Log, _ []ipfslog.Entry) error 
 	size := len(entries)
 
 	handled := map[string]struct{}{}
+
+	verifhook.Point("index.beforeLock", nil)
 
 	i.muIndex.Lock()
 	defer i.muIndex.Unlock()
